@@ -43,6 +43,15 @@ def main(tier):
         for s in ["2d(6)", "3d(4)k(2)", "b(2)", "p(1)", "2a(10)", "(2)d(6)", "1 + 2d(6)", "x = 2d(3+3)", "d(20)", "2d6max(3)", "3c(8)", "(1+1)d(2+4)"]:
             for t in [" ", "  ", "\t", "\n", "\r\n", " \n ", "", " reason", "\n理由"]:
                 cases.append(("", (s + t).encode("utf-8"), "wcfd"))
+        # a dice term whose modifier is followed by an operand that breaks off: the term ends before the modifier's operand would begin,
+        # and nothing of the attempt is left in the code (each modifier spelling, each bracket kind the operand may start with)
+        for term in ["2d20", "4d6", "3D10", "2d", "d20"]:
+            for mod in ["k", "kh", "kl", "q", "dh", "dl", "min", "max"]:
+                if term in ("d20",) and mod in ("k", "kh", "kl", "q", "dh", "dl"):
+                    continue
+                for tail in ["(1 for the lucky roll)", "(5 at least", "(2 x", "(1 +", "(", "(1", "(1 2)", "( )", "(1,2)", "((1)"]:
+                    cases.append(("", (term + mod + tail).encode("utf-8"), r.choice(["-", "wcfd"])))
+                    cases.append(("", ("1 + " + term + mod + tail).encode("utf-8"), "-"))
         for s in STRUCT:
             for t in r.sample(ALL_TAILS, 5 * widen):
                 cases.append(("", (s + t).encode("utf-8", "replace"), r.choice(CF)))
